@@ -596,6 +596,18 @@ _ADD21 = {
     "C18": " The real-signals kind may run two handlers on the default notifier.",
     "C20": " Requests may already carry a logger in their context; nothing may be logged through it.",
 }
+_ADD23 = {
+    "C04": " Mirrored separator pairs ('.'-k, '.'+k) mutate canonical names.",
+    "C05": " The ARPA generator has a branch of well-formed names with exactly one label in a spelling general-purpose number parsers accept (1_0, 0x1, +1, 1e1).",
+    "C08": " The other IDNA form (A-labels / U-labels) of every stored name is queried as a near miss; near-miss queries stay inside the domain on which ASCII and Unicode folding agree.",
+    "C11": " c11.set-every: Has of every member and gap, Delete+Add at every position, for about 350 set sizes up to 2^17+1.",
+    "C17": " The bubble script has idle steps (1 s to a year of the bubble's clock) while constructions are in progress.",
+    "C18": " Service outcomes include well-known sentinel errors (net.ErrClosed, os.ErrClosed, io.EOF, context.Canceled, http.ErrServerClosed, ...), bare, wrapped or joined.",
+    "C20": " Batches may enter the chain with the server's writer behind an Unwrap-only wrapper; flushes must still reach it.",
+}
+for _pid, _lt in _ADD23.items():
+    PROPS[_pid]["level_text"] += _lt
+
 _ADD22 = {
     "C08": " The over-long-line test also parses into destinations that are no HandleSet and requires the scanner's failure in the returned error.",
     "C11": " Vast-capacity ring histories include Clear; capacities 2^16, 2^20, 2^24 added.",
